@@ -18,7 +18,8 @@ returns a value or an error" is true by construction and says nothing.  The cont
 (b) cost bounds of the decoders: the value tree returned for an input is never larger than the
     bytes consumed — nodes, payload bytes, element counts, nesting (`no_amplification`,
     `decoded_tree_bounded`); the typed layer returns fewer caveats, wrappers included, than the
-    input has bytes (`typed_no_amplification`).  No length announced on the wire is ever used to
+    input has bytes (`typed_no_amplification`) and at most three times as many payload units
+    (`typed_payload_no_amplification`).  No length announced on the wire is ever used to
     size anything: only bytes that are present produce nodes (F5 repair semantics).
 
 What is OUTSIDE (exercised by family `hostile`, not proved): that these are ALL the panicking and
@@ -30,10 +31,12 @@ encoding/json, the whole JSON layer (no JSON model: F4 is tied by the family onl
 Tie: family `hostile` (Driver/OpsHostile.lean, harness/fam_hostile.go).
 -/
 import Macaroon.Lemmas.Hostile
+import Macaroon.Lemmas.HostileNested
+import Macaroon.Lemmas.HostileBytes
 import Macaroon.Token.Concrete
 
 namespace Macaroon.Props.C12
-open Macaroon Macaroon.Msgpack Macaroon.Codec Macaroon.Dec
+open Macaroon Macaroon.Msgpack Macaroon.Codec Macaroon.Dec Macaroon.Lemmas
 
 /-! ### (b) cost bounds -/
 
@@ -79,6 +82,20 @@ theorem typed_no_amplification :
     omega
   · intro fuel bs dk cs h
     exact decodeTicket_count fuel bs dk cs h
+
+/-- the typed layer, payload bytes: `cavBytes` counts every variable-size piece of a decoded caveat —
+byte strings and strings by length, resource-set entries by key length + 1, slice elements and
+commands by length + 1, the big integer of a Google user id by its byte length, the raw body of an
+unregistered caveat by its length — at every nesting depth.  What `DecodeCaveats`, `Decode` and ticket
+decoding return carries at most THREE times as many such units as the input has bytes (a struct
+field is bounded by the body it was read from; no registered struct has more than three variable-size
+fields; an unregistered body is a sub-slice of the input).  With `typed_no_amplification` (the number
+of caveats) this bounds everything the typed decoders build by a small multiple of the input length. -/
+theorem typed_payload_no_amplification :
+    (∀ fuel bs cs, decodeCavs fuel bs = some cs → cavBytesList cs ≤ 3 * bs.length) ∧
+    (∀ fuel bs m, decodeMac fuel bs = some m → cavBytesList m.cavs ≤ 3 * bs.length) ∧
+    (∀ fuel bs dk cs, decodeTicket fuel bs = some (dk, cs) → cavBytesList cs ≤ 3 * bs.length) :=
+  decode_bytes
 
 /-! ### (a) nesting: accepted inputs are within the budget, deeper ones are refused -/
 
@@ -181,6 +198,20 @@ theorem accepted_bodies_hashable (fuel : Nat) (bs : Bytes) (cs : List (Cav Bytes
   obtain ⟨e, hwf, _, hg⟩ := rawOk_spec raw this.2
   exact ⟨rawV raw, e, hwf, hg, genericOk_noBadKey _ hg⟩
 
+/-- … and so does every unregistered caveat NESTED inside wrappers (conditionals) of an accepted
+set, at any depth: what typed lookup (`GetCaveats`, which descends into wrappers) can return is a
+well-formed tree without unhashable keys, too -/
+theorem accepted_bodies_hashable_nested (fuel : Nat) (bs : Bytes) (cs : List (Cav Bytes))
+    (h : decodeCavs fuel bs = some cs) (henc : ∀ c ∈ cs, encodable c = true)
+    (typ : UInt64) (raw : Bytes) (hm : Nested (Cav.unregistered typ raw) cs) :
+    registered typ.toNat = false ∧
+    ∃ v, raw = enc v ∧ WF v = true ∧ v ≠ .nil ∧ genericOk v = true ∧ hasBadKey v = false := by
+  obtain ⟨hw, _, _⟩ := reencode fuel bs cs h henc
+  have := wfCav_of_nested hm hw.1
+  simp only [WFCav, Bool.and_eq_true, Bool.not_eq_true'] at this
+  obtain ⟨e, hwf, hn, hg⟩ := rawOk_spec raw this.2
+  exact ⟨this.1, rawV raw, e, hwf, hn, hg, genericOk_noBadKey _ hg⟩
+
 /-! ### non-vacuity, and the pre-repair behaviour as negative witnesses -/
 
 -- F5: five bytes announcing 2^31-1 elements decode to nothing (the Go code sized a slice by it)
@@ -226,6 +257,14 @@ example : dec 1 [0x91, 0xc0] = some (.arr .fix (.cons .nil .nil), []) :=
   dec_enc (.arr .fix (.cons .nil .nil)) 1 [] (by decide) (by decide)
 example : size (.arr .fix (.cons .nil .nil)) = 2 := by decide
 example : cavCountList [Cav.ifPresent false (.cons (.action 1) (.cons (.isMember) .nil)) 0, .action 1] = 4 := by decide
+-- nested: the unregistered caveat of `sampleNested` sits two wrappers deep
+example : Nested (Cav.unregistered 99 [0x81, 0xa1, 0x61, 0x01] : Cav Bytes)
+    [.ifPresent false (.cons (.ifPresent false (.cons (.unregistered 99 [0x81, 0xa1, 0x61, 0x01]) .nil) 0) .nil) 1] :=
+  .inside (List.mem_cons_self ..) (.inside (List.mem_cons_self ..) (.here (List.mem_cons_self ..)))
+-- the payload measure on a nested set: key `a` (1 + 1), an unregistered body of 4 bytes inside a
+-- wrapper, a third-party caveat with 1 + 2 + 3 bytes
+example : cavBytesList [.volumes [([0x61], 3)],
+    .ifPresent false (.cons (.unregistered 99 [0x81, 0xa1, 0x61, 0x01]) .nil) 0, .tp [1] [2, 2] [3, 3, 3]] = 12 := by decide
 
 end Macaroon.Props.C12
 
@@ -240,3 +279,5 @@ end Macaroon.Props.C12
 #print axioms Macaroon.Props.C12.nil_ifs_total
 #print axioms Macaroon.Props.C12.unhashable_key_rejected
 #print axioms Macaroon.Props.C12.accepted_bodies_hashable
+#print axioms Macaroon.Props.C12.accepted_bodies_hashable_nested
+#print axioms Macaroon.Props.C12.typed_payload_no_amplification
